@@ -12,9 +12,9 @@ NOTE = ("jax.numpy / lax / random primitives are replaced by assumed contracts (
 CLAIMED = {
     "C01": ("Constructors of every linear stepper (all coefficient shapes and mixing flags, D in {1,2,3}) are proved to store exp(dt*sigma_doc(kappa)) for every mode, N, L, dt and coefficient value; ETDRK0 / BaseStepper / Wave step methods are proved equal to the documented per-mode update (Wave: the exact solution of h_t=v, v_t=c^2 Lap h). Lemmas: Hermitian symbols, semigroup and reversal of the propagator.",
             NOTE + "A5 (single-mode spectrum, inversion) links the per-mode statement to 'analytic solution of every band-limited state'.", "4/C01"),
-    "C02": ("ETDRK1-4 constructors are proved (scan invariant over a symbolic number of contour points) to store dt times the complex contour mean of the Cox-Matthews closed forms for every complex symbol; step_fourier of every order equals the Cox-Matthews stage formulas with the nonlinear term an uninterpreted operator; every semi-linear stepper constructor is proved to pass its documented symbol and its own nonlinear term, for orders 0-4.",
+    "C02": ("ETDRK1-4 constructors are proved (scan invariant over a symbolic number of contour points) to store dt times the complex contour mean of the Cox-Matthews closed forms for every complex symbol; step_fourier of every order equals the Cox-Matthews stage formulas with the nonlinear term an uninterpreted operator; every semi-linear stepper constructor is proved to pass its documented symbol and its own nonlinear term, for orders 0-4, and -- when the options are omitted -- the DOCUMENTED contour (16 points, radius 1) and dealiasing fraction, not whatever default the code carries.",
             NOTE + "A7 (contour mean = closed form) assumed; no contour node at the origin assumed (|dt*L| != r); the dt^p convergence theorem is cited, not proved.", "4/C02"),
-    "C03": ("Every nonlinear-function class (constructor and __call__) is proved equal to the documented pseudo-spectral operator, term for term, with the dealiasing mask |k|_inf <= fraction*(N//2)-1 applied before ifft and after fft; the band lemma 3K<N (2/3) / 4K<N (1/2) is proved for all N.",
+    "C03": ("Every nonlinear-function class (constructor and __call__) is proved equal to the documented pseudo-spectral operator, term for term, with the dealiasing mask |k|_inf <= fraction*(N//2)-1 applied before ifft and after fft; the band lemma 3K<N (2/3) / 4K<N (1/2) is proved for all N; the documented default fractions (2/3 for the quadratic steppers and nonlinear functions, 1/2 for the cubic reaction steppers) are checked by constructing without the option.",
             NOTE + "rfftn/irfftn are opaque real-linear operators (A5: the aliasing lemma itself is assumed).", "4/C03"),
     "C04": ("Every function of the grid / FFT / coefficient conventions is under contract (wavenumbers for both indexings, scaling arrays, masks, mode slices, fft/ifft wrappers, coefficient read-off, make_grid, wrap_bc); lemmas: index<->wavenumber bijection, scaling = Hermitian multiplicity / read-off factor, oddball mask = Nyquist set.",
             NOTE + "A5 (ifft(fft(u)) = u, single-mode spectrum) assumed.", "4/C04"),
@@ -28,7 +28,7 @@ CLAIMED = {
             NOTE + "A5 (spectrum of a single cosine/sine) is how the documented physical-space forcing is stated in Fourier space.", "4/C12"),
     "C13": ("Constructors of the general/normalized/difficulty families are proved to build the same ETDRK object as the generic stepper with the documented converted coefficients; lemmas: conversions are mutual inverses, dt*sigma_generic(L;a) = sigma_generic(1;alpha), specific symbols equal generic symbols with the overview's coefficient lists.",
             NOTE + "documented convention: the j=0 generic term is D*a_0.", "4/C13"),
-    "C14": ("rollout and repeat are proved by the iteration rule for a symbolic trip count n >= 0 (all flag combinations, one- and two-leaf pytrees): entry i is ITER(i+1); stack_sub_trajectories returns every window; RepeatedStepper / ForcedStepper wiring, effective dt and shape checks are proved.",
+    "C14": ("rollout and repeat are proved by the iteration rule for a symbolic trip count n >= 0 (all flag combinations, one- and two-leaf pytrees, real and complex leaves): entry i is ITER(i+1); stack_sub_trajectories returns every window; RepeatedStepper (incl. nested) / ForcedStepper wiring, effective dt and shape checks are proved; build_ic_set uses the documented key chain (unrolled for 1-3 samples: bounded in the sample count).",
             NOTE + "A5 for RepeatedStepper in physical space.", "4/C14"),
     "C08": ("Decided at the level of the contracts of C01-C03 (a code change that breaks a symmetry breaks one of those obligations: symbols, masks, nonlinear terms, constructors) plus lemmas over the documented symbols of every stepper of the table: sigma_doc is invariant under every axis permutation for isotropic parameters, sigma_D restricted to one axis equals sigma_1 (zeroth generic coefficient excluded: documented D*a_0 convention), wavenumber layout of full and halved axes agree below Nyquist.",
             NOTE + "translation equivariance rests on the shift theorem (A5) for Fourier multipliers / pointwise products; covariance of the documented continuous nonlinear operators under axis/channel permutation is textbook and assumed.", "4/C08"),
@@ -36,11 +36,11 @@ CLAIMED = {
             NOTE + "A7 (coefficients = closed forms); for non-conservative convection forms, 2D vorticity and 3D rotational convection the vanishing mean of the convective term and the energy/enstrophy neutrality are integration by parts over a symbolic-size grid (A5) -- assumed, not discharged.", "4/C09"),
     "C15": ("FourierInterpolator (constructor, __call__) equals the documented reconstruction-scaled Fourier sum; map_between_resolutions is proved for ALL N_old, N_new >= 2 (all parity combinations, D in {1,2,3}, both oddball flags): every stored new mode in the common band receives the old coefficient of the same wavenumber times (N_new/N_old)^D, all others zero; lemma: the mean of any state is preserved.",
             NOTE + "A5 (band-limited exactness follows from the per-mode statement).", "4/C15"),
-    "C16": ("spatial_aggregator / spatial_norm / the nine spatial metrics, fourier_aggregator / fourier_norm / six Fourier metrics, six H1 metrics and correlation are proved equal to the documented formulas (floor, band masks, derivative factor, Parseval weights 1/recon, per-channel sums) for symbolic C, N, L; lemmas: L^D scaling, homogeneity, zero, symmetry, band partition, N^D/recon = Hermitian multiplicity.",
+    "C16": ("spatial_aggregator / spatial_norm / the nine spatial metrics, fourier_aggregator / fourier_norm / six Fourier metrics, six H1 metrics, correlation and mean_metric (batch axis of symbolic length) are proved equal to the documented formulas (floor, band masks, derivative factor, Parseval weights 1/recon, per-channel sums) for symbolic C, N, L; lemmas: L^D scaling, homogeneity, zero, symmetry, band partition, N^D/recon = Hermitian multiplicity.",
             NOTE + "reference norms assumed non-zero; Parseval (A5) and Cauchy-Schwarz (A6) assumed.", "4/C16"),
     "C17": ("get_spectrum is proved (both binnings, power/amplitude, D in {1,2,3}, symbolic C and N) to equal the documented masked sums with 1/recon and 1/(2 recon N^D) weights; lemma: half-open bins partition [0, N//2+1/2).",
             NOTE + "nanmean of an empty bin is NaN natively (unconstrained here); Parseval (A5) assumed.", "4/C17"),
-    "C18": ("validate_normalization_options, normalize_ic, WhiteNoise, RandomTruncatedFourierSeries, GaussianRandomField, DiffusedNoise, the clamping / scaling / multi-channel wrappers, Discontinuity and SineWaves1d are proved equal to their documented construction (shape (1,N..N), cutoff mask, mean coefficient offset*N^D, power-law shaping with untouched mean, affine clamping, normalisation order), as deterministic terms in the abstract draws of the key; lemma: zero mean after mean removal, clamping end points.",
+    "C18": ("Every public generator and function form of exponax.ic is under contract: validate_normalization_options, normalize_ic, WhiteNoise, RandomTruncatedFourierSeries, GaussianRandomField, DiffusedNoise, the clamping / scaling / multi-channel wrappers (sampled and function form), Discontinuity / Discontinuities / RandomDiscontinuities, GaussianBlob / GaussianBlobs / RandomGaussianBlobs, SineWaves1d / RandomSineWaves1d, BaseRandomICGenerator.__call__ (sampled form = function form on the generator's grid), build_ic_set (unrolled for 1-3 samples: bounded in the sample count) -- each proved equal to its documented construction (shape (1,N..N), cutoff mask, mean coefficient offset*N^D, power-law shaping with untouched mean, affine clamping, normalisation order, key-splitting chains), as deterministic terms in the abstract draws of the key; lemma: zero mean after mean removal, clamping end points.",
             NOTE + "jax.random draws are abstract functions of the key; MAX/MIN aggregate facts (A6) assumed; finiteness is floating point (not expressible).", "4/C18"),
     "C20": ("raises-contracts: __call__ of BaseStepper / RepeatedStepper / Poisson rejects exactly the mis-shaped states (symbolic wrong channel count, wrong axis length, rank +-1); dimension guards of the NS classes and nonlinear terms, parity guards of the operators, option guards (scaling mode, scale_list length, ifft in 1D, order not in 0..4).",
             NOTE + "pure shape / integer reasoning.", "4/C20"),
@@ -79,7 +79,7 @@ def build(all_ids):
         "engines": [{"name": "symjnp", "path": "symjnp/", "serves_properties": sorted(CLAIMED),
                      "kind_free_text": "forward symbolic executor of the real exponax function objects under a jax.numpy contract shim (index-lambda arrays over z3 terms), callee-by-contract stubs, scan invariants, VCs discharged by z3 with a ring / exponential-polynomial normaliser front end; native replay of counterexamples on real jax"}],
         "checks": checks,
-        "notes": "All checks rebuild everything from /repo's working tree (VERIF_REPO overrides for scratch copies). Exit codes: 0 held, 1 violation, 2 undecided, 3 tool failure. Results of shared (contract, case) items are cached under .cache/<hash of /repo/exponax and of the verifier sources>.",
+        "notes": "All checks rebuild everything from /repo's working tree (VERIF_REPO overrides for scratch copies). Exit codes: 0 held, 1 violation, 2 undecided, 3 tool failure. quick = all contract obligations and lemmas of the property's cone (unbounded proofs); thorough = quick + a BOUNDED native conformance sweep (5 concrete configurations per contract case on the real jax, float64, against the numerically evaluated spec; reported under coverage.bounded_conformance_sweep, never counted as discharged) + lean re-check of lemmas/Axioms.lean (the exp/cos/sin/sqrt/pi schemes the solver uses). Results of shared (contract, case) items are cached under .cache/<hash of /repo/exponax and of the verifier sources>.",
         "not_applicable": sorted(na, key=lambda d: d["property_id"]),
     }
 
